@@ -1,11 +1,122 @@
 import FunModel.Queue
+import FunProofs.QueueLive
 
-/-! C07 — placeholder until FunProofs/Queue.lean lands -/
+/-! C07 — `pubsub.Queue`: blocking operations never miss a wake-up. Property theorems over the
+    small-step model (`FunModel.Conc` + `FunModel.Queue`; conditions 0 = `nempty`, 1 = `nupdates`),
+    for every admissible initial queue (`QInit`: `mkUnlimited` and every `mkSoft hard soft burst`
+    are instances — the side conditions `1 ≤ hard`, `soft ≤ hard` of `Validate` turn out not to be
+    needed), every number of threads, every list of programs and every schedule: all states
+    `Reach`able from `initSys init programs` (what `runCase` builds) by enabled actions.
+
+    Why a single `Signal` on the first item is enough (`doAdd` signals `nempty` only when the length
+    becomes 1): every waiter that returns releases its helper, whose `fire` broadcasts `nempty`.
+    The inductive invariant (`Queue.Inv.nempty`) is: queue non-empty ∧ somebody parked on `nempty`
+    → some woken thread inside `Wait`/`Receive` whose helper has not fired, or some helper for
+    `nempty` pending at its gate (`Conc.Wit`); both are enabled internal actions. -/
 namespace FunModel.C07
 open FunModel.Conc FunModel.Queue
 
 /-- closing never loses queued items -/
 theorem close_keeps_items (s : St) (t : Nat) : (start s t .close).st.q = s.q := by
   simp [start]
+
+/-- the initial queues of the harness are admissible -/
+theorem init_admissible : QInit mkUnlimited ∧ ∀ hard soft burst, QInit (mkSoft hard soft burst) :=
+  ⟨qinit_unlimited, qinit_soft⟩
+
+/-- `no_stuck_queue`: in every reachable quiescent state (no woken goroutine has still to re-check,
+    no helper broadcast is outstanding) a parked thread's context is not cancelled and the queue is
+    not closed; if it is parked in `Wait` / `Receive` the queue is empty; if it is parked in
+    `BlockingAdd` the tracker has no room -/
+theorem no_stuck_queue {init : St} (hinit : QInit init) (programs : List (List Op)) {s : Sys St Op}
+    (hr : Reach subject (initSys init programs) s) (q : Quiescent s) {t : Nat} {th : Th Op} {c : Nat}
+    (hth : s.ths[t]? = some th) (hp : th.st = .parked c) :
+    s.subj.closed = false ∧ th.cancelled = false ∧
+    ((th.ops[th.pc]? = some .wait ∨ th.ops[th.pc]? = some .recv) → s.subj.q = [] ∧ s.subj.tracker.len = 0) ∧
+    (∀ v, th.ops[th.pc]? = some (.badd v) → s.subj.tracker.hasRoom = false) := by
+  obtain ⟨hcl, _, _, op, hop, hc, hroom, _⟩ := parked_facts hinit hr hth hp
+  obtain ⟨hcan, h0⟩ := no_stuck hinit hr q hth hp
+  refine ⟨hcl, hcan, ?_, ?_⟩
+  · intro hw
+    have : c = 0 := by
+      rcases hw with hw | hw <;> (rw [hop] at hw; cases hw; simp [condOf] at hc; exact hc.symm)
+    exact ⟨(h0 this).2, (h0 this).1⟩
+  · intro v hv; rw [hop] at hv; cases hv; exact hroom v rfl
+
+/-- what is true of a parked thread in *every* reachable state (quiescent or not): it is inside
+    `Wait`/`Receive` (on `nempty`) or `BlockingAdd`/iterator-`next` (on `nupdates`), the queue is open,
+    it has an unfired helper for its condition, and if its context is cancelled that helper is
+    pending at its gate -/
+theorem parked_invariant {init : St} (hinit : QInit init) (programs : List (List Op)) {s : Sys St Op}
+    (hr : Reach subject (initSys init programs) s) {t : Nat} {th : Th Op} {c : Nat}
+    (hth : s.ths[t]? = some th) (hp : th.st = .parked c) :
+    s.subj.closed = false ∧ Live c th.helpers ∧ (th.cancelled = true → Pending c th.helpers) ∧
+    ((c = 0 ∧ (th.ops[th.pc]? = some .wait ∨ th.ops[th.pc]? = some .recv)) ∨
+     (c = 1 ∧ ((∃ v, th.ops[th.pc]? = some (.badd v)) ∨ ∃ k, th.ops[th.pc]? = some (.next k)))) := by
+  obtain ⟨hcl, hl, hpend, op, hop, hc, _, _⟩ := parked_facts hinit hr hth hp
+  refine ⟨hcl, hl, hpend, ?_⟩
+  cases op <;> simp [condOf] at hc <;> subst hc <;> simp [hop]
+
+/-- the wake-up invariant itself: whenever the queue is non-empty and somebody is parked on `nempty`,
+    a wake-up is on its way (`Wit`), hence the state is not quiescent -/
+theorem nempty_wakeup_pending {init : St} (hinit : QInit init) (programs : List (List Op)) {s : Sys St Op}
+    (hr : Reach subject (initSys init programs) s) (hlen : s.subj.tracker.len ≠ 0) (hp : ParkedOn s 0) :
+    Wit (fun _ => condOf) s 0 ∧ ¬ Quiescent s :=
+  ⟨(reach_inv hinit hr).nempty hlen hp, ((reach_inv hinit hr).nempty hlen hp).not_quiescent⟩
+
+/-- `wait_when_ready_returns`: a `Wait`/`Receive`/`BlockingAdd`/`next` (indeed any operation) whose
+    condition `Ready` already holds when it takes the lock — at its start, or when it re-acquires the
+    lock after a wake-up — completes in that same segment: the pc advances and it does not park.
+    `Ready`: `Wait`/`Receive`: non-empty ∨ closed ∨ context done; `BlockingAdd`: room ∨ closed ∨
+    context done; `next k`: an unseen successor ∨ closed ∨ context done; a started operation has a
+    live context. -/
+theorem wait_when_ready_returns {init : St} (hinit : QInit init) (programs : List (List Op)) {s s' : Sys St Op}
+    {a : Act} {obs : String} {t : Nat} {th th' : Th Op} {op : Op} (hr : Reach subject (initSys init programs) s)
+    (hen : a ∈ enabled s true) (hs : step subject s a = some (s', obs)) (ha : a = .start t ∨ a = .resume t)
+    (hth : s.ths[t]? = some th) (hop : th.ops[th.pc]? = some op) (hth' : s'.ths[t]? = some th')
+    (hready : Ready s.subj op (if a = .start t then false else th.cancelled)) :
+    th'.pc = th.pc + 1 ∧ ∀ c, th'.st ≠ .parked c :=
+  (ready_iff_returns hinit hr hen hs ha hth hop hth').1 hready
+
+/-- the converse: an operation that is not `Ready` parks, on the condition of that operation -/
+theorem not_ready_parks {init : St} (hinit : QInit init) (programs : List (List Op)) {s s' : Sys St Op}
+    {a : Act} {obs : String} {t : Nat} {th th' : Th Op} {op : Op} (hr : Reach subject (initSys init programs) s)
+    (hen : a ∈ enabled s true) (hs : step subject s a = some (s', obs)) (ha : a = .start t ∨ a = .resume t)
+    (hth : s.ths[t]? = some th) (hop : th.ops[th.pc]? = some op) (hth' : s'.ths[t]? = some th')
+    (hnot : ¬ Ready s.subj op (if a = .start t then false else th.cancelled)) :
+    ∃ c, th'.st = .parked c ∧ condOf op = some c ∧ th'.pc = th.pc :=
+  (ready_iff_returns hinit hr hen hs ha hth hop hth').2 hnot
+
+/-! ### non-vacuity -/
+
+/-- a consumer parked on the empty unlimited queue: reachable, quiescent, somebody is parked -/
+example : ∃ s, Reach subject (initSys mkUnlimited [[.wait], [.add 7]]) s ∧ Quiescent s ∧
+    (∃ th, s.ths[0]? = some th ∧ th.st = .parked 0 ∧ th.ops[th.pc]? = some .wait) := by
+  refine ⟨_, reach_of_runActs [.start 0] rfl .init, by decide, ⟨_, rfl, rfl, rfl⟩⟩
+
+/-- a producer parked in `BlockingAdd` on a full bounded queue (hard = soft = 1) -/
+example : ∃ s, Reach subject (initSys (mkSoft 1 1 0) [[.badd 1, .badd 2]]) s ∧ Quiescent s ∧
+    (∃ th, s.ths[0]? = some th ∧ th.st = .parked 1 ∧ th.ops[th.pc]? = some (.badd 2)) := by
+  refine ⟨_, reach_of_runActs [.start 0, .start 0] rfl .init, by decide, ⟨_, rfl, rfl, rfl⟩⟩
+
+/-- the subtle schedule: two parked waiters, two adds — only one `Signal`. Thread 1 is woken, thread 2
+    is still parked on `nempty` with 2 items queued: the state is reachable, *not* quiescent, and
+    `nempty_wakeup_pending` speaks about it. After thread 1 returned, its helper is at the gate. -/
+example : ∃ s, Reach subject (initSys mkUnlimited [[.add 1, .add 2], [.wait], [.wait]]) s ∧
+    s.subj.tracker.len = 2 ∧ ParkedOn s 0 ∧ .resume 1 ∈ enabled s true := by
+  refine ⟨_, reach_of_runActs [.start 1, .start 2, .start 0, .start 0] rfl .init, rfl, ⟨2, _, rfl, rfl⟩, by decide⟩
+
+example : ∃ s, Reach subject (initSys mkUnlimited [[.add 1, .add 2], [.wait], [.wait]]) s ∧
+    s.subj.tracker.len = 1 ∧ ParkedOn s 0 ∧ .fire 1 ∈ enabled s true ∧ .resume 1 ∉ enabled s true := by
+  refine ⟨_, reach_of_runActs [.start 1, .start 2, .start 0, .start 0, .resume 1] rfl .init, rfl, ⟨2, _, rfl, rfl⟩,
+    by decide, by decide⟩
+
+/-- `Ready` is satisfiable and refutable -/
+example : Ready (mkSoft 1 1 0) (.badd 3) false ∧ ¬ Ready mkUnlimited .wait false := by
+  refine ⟨Or.inl rfl, ?_⟩
+  rintro (h | h | h)
+  · exact h rfl
+  · cases h
+  · cases h
 
 end FunModel.C07
